@@ -188,7 +188,7 @@ Definition java_load (text : string) : option jproblem :=
   end.
 
 (* ---- run(): the lines printed, each followed by a line separator ---- *)
-Definition unlines (l : list string) : string := concat "" (map (fun x => x ++ s_nl) l).
+(* [unlines] (Backend/SugarText.v): each println appends the line separator *)
 
 Definition show_int (rho : string -> option value) (name : string) : option string :=
   match rho name with Some (VI z) => Some (pz z) | _ => None end.
